@@ -47,6 +47,17 @@ NOTES = {
     'c19_3': '**missed at first**: IF/NOTIF conditions were at most one byte; C19 got conditions wider than a script number',
     'c20_3': '**missed at first**: every fixture block had one transaction and one request window; C20 got a five-transaction block '
              'and paging histories - this exposed a genuine defect (cached block page order), repaired',
+    'c01_4': '**missed at first**: no pay-to-public-key input with an uncompressed key; the input kind p2pk_u was added to the '
+             'generator shared by C01 and C02',
+    'c04_4': '**missed at first**: Address() was always called with an explicit encoding; C04 now also leaves it out and demands the '
+             'address of the derived encoding',
+    'c08_4': '**missed at first**: single-account wallets only; C08 got a second funded account (keys interleaving in creation '
+             'order) and observes balance / unspent outputs / key balances per account and for the call without account',
+    'c10_4': '**missed at first**: a witness signature of 70 bytes (leading zero byte in r or s) is a rare size class that fixed '
+             'amounts never produce; C02 and C10 now scan a window of locktimes / amounts, measure the library signature and add '
+             'configurations whose first signature is <= 70 bytes (selection only, verdicts stay with the reference)',
+    'c18_4': '**missed at first**: nothing was called after a call that failed; C18 got the differential sub-space afterfail (c2 '
+             'after a failed c1 must answer what c2 answers on a fresh object; repair of the command list)',
     'c13': '**missed at first**: C13 verified every triple on a fresh object; it now explores verify-call histories on '
            'one Signature object (sub-space reuse)',
 }
@@ -68,7 +79,9 @@ for sid in sorted(os.listdir('/verif/seeded')):
         t = ' '.join(str(t).split()).replace('|', '\\|')
         return t if len(t) <= n else t[:n - 1] + '…'
     rows.append('| %s | %s | %s | %s | %s | %s |' % (sid, prop, clip(m.get('summary', ''), 230), clip(m.get('needs', ''), 200),
-                                                    '; '.join(res), NOTES.get(sid, 'as built')))
+                                                    '; '.join(res), NOTES.get(sid, 'as built') +
+                                                    (' - **superseded**: ' + clip(m['superseded'], 400) if m.get('superseded') else '') +
+                                                    (' - ported: ' + clip(m['ported'], 200) if m.get('ported') else '')))
 p = '/verif/DESIGN.md'
 s = open(p).read()
 a, b = '<!-- SEEDED-TABLE-BEGIN -->', '<!-- SEEDED-TABLE-END -->'
